@@ -1,0 +1,36 @@
+//go:build verif
+
+package utils
+
+import "sync"
+
+// VerifHook, when set by a verification harness, is invoked at every VerifYield
+// call site. It may block (the harness uses it as a scheduler gate) or exit the
+// process (crash points). It must be installed before the code under test starts.
+var VerifHook func(point string, args ...uint64)
+
+// VerifYield marks a linearization/yield point for the verification harness.
+func VerifYield(point string, args ...uint64) {
+	if h := VerifHook; h != nil {
+		h(point, args...)
+	}
+}
+
+var (
+	verifPauseMu sync.RWMutex
+	verifPauses  = map[string]bool{}
+)
+
+// VerifPause pauses or resumes a named background activity (e.g. "compaction").
+func VerifPause(name string, on bool) {
+	verifPauseMu.Lock()
+	verifPauses[name] = on
+	verifPauseMu.Unlock()
+}
+
+// VerifPaused reports whether the named background activity is paused.
+func VerifPaused(name string) bool {
+	verifPauseMu.RLock()
+	defer verifPauseMu.RUnlock()
+	return verifPauses[name]
+}
